@@ -9,10 +9,10 @@ from vlib import facts
 import props, check
 F = facts.load(None)
 EXACT = ("adt_variants", "helpers", "payload_variants", "types_variants", "initinstr_variants", "domain_points", "datatype_points", "id_newtypes", "abstract_heap_variants",
-         "adt_openers", "adt_branch_ops", "adt_exit_ops", "roots", "name_kinds", "dispatches", "parse_tags", "encode_tags",
+         "adt_openers", "adt_branch_ops", "adt_exit_ops", "roots", "name_kinds", "parse_tags", "encode_tags",
          "ComponentDefinedType@encode_comp", "ComponentDefinedType@convert_component_type", "CanonicalFunction@encode_comp", "const_operators", "section_calls",
          "dispatch_sites", "compared_methods", "inject_at_impls", "function_walks", "cleared_modes", "add_import_arms", "guards")
-SKIP = ("debug_only_overflow_checks", "panic_sites", "in_place_flippers", "inplace_remap_sites", "index_sites", "pending_containers", "predicate_variants", "updater_variants",
+SKIP = ("dispatches", "debug_only_overflow_checks", "panic_sites", "in_place_flippers", "inplace_remap_sites", "index_sites", "pending_containers", "predicate_variants", "updater_variants",
         "kind_filtered_enumerations", "scratch_buffers", "to_local_flippers")
 HALF = ("encode_reachable_fns", "reachable_fns", "encode_calls_scanned", "sinks", "iterator_calls_scanned", "loops", "import_loops", "config_reads")
 fl = {"_comment": "Lower bounds, per property, on what each rule must have seen (fail closed: a count below its floor is a checker ERROR, exit 2, never a pass). ADT-/API-determined counts are the numbers confirmed by reading the pinned tree; site counts that a harmless refactor may shrink are floored at ~70% of the confirmed number (50% for call-graph sizes, loop and sink counts). Regenerate with tools/gen_floors.py after reviewing the counts."}
